@@ -4,7 +4,12 @@
 # /repo must be clean before; it is left clean.
 cd "$(dirname "$0")/.."
 . ./env.sh
-if [ -n "$(git -C "$REPO_DIR" status --porcelain)" ]; then echo "refusing: $REPO_DIR is not clean" >&2; exit 3; fi
+# the seeds are applied to a scratch worktree of /repo (never to /repo itself), and the checks are
+# pointed at it through REPO_DIR
+SCRATCH="${SEED_SCRATCH:-/tmp/seed_scratch_$$}"
+git -C /repo worktree add -q --detach "$SCRATCH" HEAD || exit 3
+trap 'git -C /repo worktree remove --force "$SCRATCH" 2>/dev/null' EXIT
+export REPO_DIR="$SCRATCH"
 dirs=("$@"); [ ${#dirs[@]} -eq 0 ] && dirs=(seeded/*/)
 for d in "${dirs[@]}"; do
   d="${d%/}"
@@ -24,4 +29,3 @@ for d in "${dirs[@]}"; do
   git -C "$REPO_DIR" checkout -- . ; git -C "$REPO_DIR" clean -fdq -- . 2>/dev/null
   echo "$d:$res"
 done
-rm -rf replays/*
